@@ -107,7 +107,8 @@ struct Attrs : Profile {
     std::vector<std::string> required_probes() const override
     {
         return {"replace", "replace-type-change", "large-attr", "prefix-names", "dim-attr", "dimscale", "cal", "range", "datastrs",
-                "gr-attr", "vs-attr", "vsfield-attr", "vg-attr", "restart", "restart-write"};
+                "gr-attr", "vs-attr", "vsfield-attr", "vg-attr", "restart", "restart-write", "dim-renamed-with-metadata", "dimscale-retype-refused",
+                "dimscale-retype-accepted"};
     }
 
     Plan generate(Rng &rng, bool thorough, uint64_t) override
@@ -707,9 +708,9 @@ struct Attrs : Profile {
                         int32 dim = SDgetdimid(id, dn);
                         if (dim == FAIL)
                             ctx.fail("lookup-failed", "lookup-failed:dimid", "SDgetdimid failed");
-                        if (k == "dimname" && (d.scale[dn] || !d.dimattrs[dn].at.empty()) && p.knob("unguard_dim_rename", 0) == 0)
-                            done = false; // known finding C10-dim-rename-loses-metadata
-                        else if (k == "dimname") {
+                        if (k == "dimname") {
+                            if (d.scale[dn] || !d.dimattrs[dn].at.empty())
+                                ctx.probe("dim-renamed-with-metadata"); // used to be guarded: repaired (findings/fixed)
                             std::string nn = strf("dim_%d_%d_%d_r%d", di, dn, s.uniq++, (int)o.arg(2));
                             if (SDsetdimname(dim, nn.c_str()) == FAIL)
                                 ctx.fail("dimname-refused", "dimname-refused", "SDsetdimname failed");
@@ -720,14 +721,12 @@ struct Attrs : Profile {
                             std::vector<uint8_t> v((size_t)d.dims[dn] * (size_t)ATS[snt].size);
                             for (int32 q = 0; q < d.dims[dn]; q++)
                                 avalue(ATS[snt], (uint64_t)o.arg(3), (uint64_t)q, v.data() + (size_t)q * (size_t)ATS[snt].size);
-                            if (d.scale[dn] && d.scale_nt[dn] != snt && p.knob("unguard_dimscale_retype", 0) == 0) {
-                                SDendaccess(id); // known finding C10-dimscale-retype
-                                ctx.st.ops_skipped++;
-                                continue;
-                            }
+                            bool retype = d.scale[dn] && d.scale_nt[dn] != snt; // used to be guarded: repaired (findings/fixed)
                             intn rc = SDsetdimscale(dim, d.dims[dn], ATS[snt].code, v.data());
                             if (rc == FAIL && !(d.scale[dn] && d.scale_nt[dn] != snt))
                                 ctx.fail("meta-refused", "meta-refused:dimscale", strf("SDsetdimscale(type %d) failed", (int)ATS[snt].code));
+                            if (retype)
+                                ctx.probe(rc == FAIL ? "dimscale-retype-refused" : "dimscale-retype-accepted");
                             if (rc != FAIL) { // changing the type of an existing scale may be refused: the old scale stays
                                 d.scale[dn]     = true;
                                 d.scale_nt[dn]  = snt;
